@@ -1,6 +1,6 @@
 (* Props/C06.v — range of solutions = exact per-source extent of the solution polytope. *)
-From Coq Require Import QArith Qabs Qminmax List Bool Arith.
-From DV Require Import Base.QVec Run.Verdict Model.Linear Cert.Hull Model.Range Proofs.RangeP.
+From Coq Require Import QArith Qabs Qminmax List Bool Arith Lqa.
+From DV Require Import Base.QVec Run.Verdict Model.Linear Cert.Hull Model.Gauss Model.Range Proofs.RangeP Proofs.VertexDefs Proofs.RangeCompleteP.
 Import ListNotations.
 Open Scope Q_scope.
 
@@ -46,6 +46,39 @@ Theorem outside_certificate_sound : forall A' base' lb ub n b y mu, check_sep A'
 Proof. exact sep_cert_sound. Qed.
 Print Assumptions outside_certificate_sound.
 
+(* (F) COMPLETENESS of the enumeration (the fundamental theorem of linear programming for this polytope,
+   proved from scratch over Q: elimination, Steinitz exchange, purification -- Proofs/LinAlgP, SupportP,
+   PurifyP, RangeCompleteP).  Whenever the capture matrix has m independent columns (has_basis), every
+   in-bound solution x is matched, for every source k and both directions (s = 1: minimum, s = -1:
+   maximum), by a basic solution that the enumeration keeps: *)
+Theorem enumeration_complete : forall A b lb ub n k (s : Q) x cands,
+  rect n A -> (length A <= n)%nat -> length lb = n -> length ub = n -> has_basis A n ->
+  sol_set A b lb ub x -> candidates A b lb ub n = Ok cands ->
+  exists c, In c cands /\ s * nthQ c k <= s * nthQ x k.
+Proof. exact Proofs.RangeCompleteP.range_complete. Qed.
+Print Assumptions enumeration_complete.
+(* hence the reported ends bracket EVERY in-bound solution; with range_ends_attained (both ends are values of
+   in-bound solutions) they are the EXACT per-source extents of the solution polytope *)
+Theorem range_is_exact : forall A b lb ub n k x mins maxs,
+  rect n A -> (length A <= n)%nat -> length lb = n -> length ub = n -> has_basis A n -> (k < n)%nat ->
+  sol_set A b lb ub x -> range_model A b lb ub n = Ok (mins, maxs) ->
+  nthQ mins k <= nthQ x k /\ nthQ x k <= nthQ maxs k.
+Proof. exact Proofs.RangeCompleteP.range_exact. Qed.
+Print Assumptions range_is_exact.
+(* the enumeration never aborts (singular sub-systems are skipped) *)
+Theorem enumeration_total : forall A b lb ub n, exists cands, candidates A b lb ub n = Ok cands.
+Proof. exact Proofs.RangeCompleteP.candidates_never_fail. Qed.
+Print Assumptions enumeration_total.
+(* non-vacuity of has_basis: columns 0 and 1 of the example system below are independent *)
+Example basis_concrete : has_basis [[1;1;0];[0;1;1]] 3.
+Proof.
+  exists (fun i => Nat.ltb i 2). split; [|reflexivity].
+  intros d Hl Hs Hk. destruct d as [|d0 [|d1 [|d2 [|? ?]]]]; try discriminate.
+  assert (H2 : d2 == 0) by (apply (Hs 2%nat); reflexivity).
+  inversion Hk as [|r0 M0 H0 Hk']; subst. inversion Hk' as [|r1 M1 H1 _]; subst.
+  cbn [dot] in H0, H1.
+  repeat constructor; lra.
+Qed.
 Example range_concrete : range_model [[1;1;0];[0;1;1]] [1;1] [0;0;0] [1;1;1] 3 = Ok ([0;0;0], [1;1;1])
   /\ exists cands, candidates [[1;1;0];[0;1;1]] [1;1] [0;0;0] [1;1;1] 3 = Ok cands /\ cands <> [].
 Proof. split; [vm_compute; reflexivity | eexists; split; [vm_compute; reflexivity | discriminate]]. Qed.
